@@ -301,6 +301,8 @@ func (a *Analysis) evaluate() []Violation {
 	a.ruleBuiltins()
 	a.ruleErrors()
 	a.ruleLeaks()
+	a.ruleOrder()
+	a.ruleHeld()
 	return a.vs
 }
 
@@ -954,6 +956,195 @@ func (a *Analysis) ruleSched() {
 			a.add("C09", "C09.panic", "spawned-task", "goroutine started by godi (%s) panicked: %v", t.Name, t.Panic)
 			a.add("C13", "C13.overlap", "spawned-task/panic", "goroutine started by godi (%s) panicked: %v", t.Name, t.Panic)
 			a.add("C15", "C15.nopanic", "spawned-task", "goroutine started by godi (%s) panicked: %v", t.Name, t.Panic)
+		}
+	}
+}
+
+// singleClient: exact-order rules are asserted only on histories with one
+// client task and no context cancellation (the statement quantifies over
+// configurations x histories, not schedules).
+func (a *Analysis) singleClient() bool {
+	if a.h.nClients != 1 {
+		return false
+	}
+	for _, op := range a.ops {
+		if op.Op.Kind == OpCancel {
+			return false
+		}
+	}
+	return true
+}
+
+func (a *Analysis) descendantOf(hid, anc int) bool {
+	for x := hid; x >= 0; {
+		hd := a.h.handle(x)
+		if hd == nil || hd.Parent == x {
+			return false
+		}
+		x = hd.Parent
+		if x == anc {
+			return true
+		}
+	}
+	return false
+}
+
+// C11: disposal order.
+func (a *Analysis) ruleOrder() {
+	m := a.m
+	type item struct {
+		in   *Inst
+		done int // constructor completion
+		cls  int // close seq
+	}
+	byOwner := map[Owner][]item{}
+	for _, in := range a.h.insts {
+		if in.Inv < 0 || in.closeCount != 1 {
+			continue
+		}
+		r := m.regs[in.Reg]
+		if !r.Outs[in.OutIdx].Concrete.IsDisp() {
+			continue
+		}
+		inv := a.h.invs[in.Inv]
+		if inv.Outcome != OutOK {
+			continue
+		}
+		ow := a.ownerOf(in)
+		byOwner[ow] = append(byOwner[ow], item{in, inv.ExitSeq, in.closeSeq[0]})
+	}
+	exact := a.singleClient()
+	for ow, items := range byOwner {
+		if ow.Kind == OwUnknown {
+			continue
+		}
+		// C11.depFirst (also asserted in concurrent runs): a holder is closed before what it received
+		inList := map[int]item{}
+		for _, it := range items {
+			inList[it.in.ID] = it
+		}
+		for _, it := range items {
+			inv := a.h.invs[it.in.Inv]
+			for _, ar := range inv.Args {
+				for _, dep := range ar.Insts {
+					d, ok := inList[dep]
+					if !ok || d.in.ID == it.in.ID {
+						continue
+					}
+					if d.cls < it.cls {
+						a.add("C11", "C11.depFirst", regShape(m.regs[it.in.Reg]), "in %s: instance #%d (r%d) was closed at seq %d while #%d (r%d), which received it as a dependency, was still open (closed at %d)", ow, d.in.ID, d.in.Reg, d.cls, it.in.ID, it.in.Reg, it.cls)
+					}
+				}
+			}
+		}
+		if !exact {
+			continue
+		}
+		// C11.reverse: exactly the reverse of creation order
+		for i := range items {
+			for j := range items {
+				x, y := items[i], items[j]
+				if x.done < y.done && x.in.Inv != y.in.Inv && x.cls < y.cls {
+					a.add("C11", "C11.reverse", ownerKind(ow), "in %s: #%d (r%d) was created before #%d (r%d) (seq %d < %d) but also closed before it (seq %d < %d)", ow, x.in.ID, x.in.Reg, y.in.ID, y.in.Reg, x.done, y.done, x.cls, y.cls)
+				}
+			}
+		}
+	}
+	if !exact {
+		return
+	}
+	// C11.childrenFirst / C11.scopesFirst inside every Close extent
+	for _, op := range a.ops {
+		if !(op.Op.Kind == OpClose || op.Op.Kind == OpFinish) || !op.Done || op.Handle < 0 || op.Panic != nil {
+			continue
+		}
+		task := a.h.taskOfOp(op)
+		evs := a.closeEventsIn(task, op.StartSeq, op.EndSeq)
+		firstOwn, lastDesc, descInst := 0, 0, -1
+		firstSingleton, lastScoped, scopedInst := 0, 0, -1
+		for _, ev := range evs {
+			in := a.inst(ev.Inst)
+			if in == nil || in.Inv < 0 {
+				continue
+			}
+			ow := a.ownerOf(in)
+			switch {
+			case op.Handle == 0:
+				if ow.Kind == OwProvider {
+					if firstSingleton == 0 || ev.Seq < firstSingleton {
+						firstSingleton = ev.Seq
+					}
+				} else if ev.Seq > lastScoped {
+					lastScoped, scopedInst = ev.Seq, in.ID
+				}
+			case ow.Kind == OwScope && ow.ID == op.Handle:
+				if firstOwn == 0 || ev.Seq < firstOwn {
+					firstOwn = ev.Seq
+				}
+			case ow.Kind == OwScope && a.descendantOf(ow.ID, op.Handle):
+				if ev.Seq > lastDesc {
+					lastDesc, descInst = ev.Seq, in.ID
+				}
+			}
+		}
+		if firstOwn > 0 && lastDesc > firstOwn {
+			a.add("C11", "C11.childrenFirst", "scope", "Close of h%d (op%d): instance #%d of a descendant scope was closed (seq %d) after the scope had started disposing its own instances (seq %d)", op.Handle, op.GID, descInst, lastDesc, firstOwn)
+		}
+		if firstSingleton > 0 && lastScoped > firstSingleton {
+			a.add("C11", "C11.scopesFirst", "provider", "provider Close (op%d): scoped/transient instance #%d was closed (seq %d) after a singleton had been closed (seq %d)", op.GID, scopedInst, lastScoped, firstSingleton)
+		}
+		// root-scope (provider handle) children: scopes created on the provider are descendants of the provider close
+		if op.Handle == 0 {
+			firstRoot, lastChild, childInst := 0, 0, -1
+			for _, ev := range evs {
+				in := a.inst(ev.Inst)
+				if in == nil || in.Inv < 0 {
+					continue
+				}
+				ow := a.ownerOf(in)
+				if ow.Kind == OwRoot && (firstRoot == 0 || ev.Seq < firstRoot) {
+					firstRoot = ev.Seq
+				}
+				if ow.Kind == OwScope && ev.Seq > lastChild {
+					lastChild, childInst = ev.Seq, in.ID
+				}
+			}
+			_ = firstRoot
+			_ = lastChild
+			_ = childInst
+		}
+	}
+}
+
+func ownerKind(o Owner) string {
+	return []string{"provider", "root", "scope", "failed-create", "failed-build", "unknown"}[o.Kind]
+}
+
+// C07.held: no singleton/transient ever receives an instance of a scoped registration.
+func (a *Analysis) ruleHeld() {
+	m := a.m
+	if !a.buildOK {
+		return
+	}
+	for _, inv := range a.h.invs {
+		r := m.regs[inv.Reg]
+		if r.Life == LScoped {
+			continue
+		}
+		for i, ar := range inv.Args {
+			for _, id := range ar.Insts {
+				in := a.inst(id)
+				if in == nil || in.Inv < 0 {
+					continue
+				}
+				if m.regs[in.Reg].Life == LScoped {
+					dep := "?"
+					if i < len(r.Deps) {
+						dep = r.Deps[i].String()
+					}
+					a.add("C07", "C07.held", regShape(r), "%s r%d#%d was constructed with instance #%d of scoped registration r%d (parameter %s) after a successful Build", lifeNames[r.Life], inv.Reg, inv.N, in.ID, in.Reg, dep)
+				}
+			}
 		}
 	}
 }
